@@ -315,9 +315,13 @@ func (e *Engine) builtin(fr *Frame, st *State, b *ssa.Builtin, args []Val, argVa
 				return Scalar{e.strlen(x.T), intT}, true
 			}
 			// map / chan
-			n := e.fresh(a.idxSort(), "maplen")
+			if _, isMap := x.Ty.Underlying().(*types.Map); isMap {
+				n := Select(e.mapLenGet(st, x.Ty), x.T)
+				e.assume(Implies(st.guard, a.idxLe(a.idxLit(0), n)))
+				return Scalar{Ite(Eq(x.T, IntLit(0)), a.idxLit(0), n), intT}, true
+			}
+			n := e.fresh(a.idxSort(), "chanlen")
 			e.assume(a.idxLe(a.idxLit(0), n))
-			e.assume(Implies(Eq(x.T, IntLit(0)), Eq(n, a.idxLit(0))))
 			return Scalar{n, intT}, true
 		case ArrayV:
 			return Scalar{a.idxLit(x.Ty.Underlying().(*types.Array).Len()), intT}, true
@@ -514,7 +518,20 @@ func (e *Engine) mapSorts(mt *types.Map) (Sort, bool) {
 	return ks, ks != ""
 }
 
+// mapLenKey: ghost length of maps (exact for new maps, havocked by updates/deletes).
+func mapLenKey(mt types.Type) string { return "map:" + typeKey(mt) + "|$len" }
+
+func (e *Engine) mapLenGet(st *State, mt types.Type) Term {
+	return e.heapGetRaw(st, mapLenKey(mt), SArr(SInt, e.ar.idxSort()))
+}
+
+func (e *Engine) mapLenSet(st *State, mt types.Type, h Term, n Term) {
+	m := e.mapLenGet(st, mt)
+	st.heap[mapLenKey(mt)] = Store(m, h, n)
+}
+
 func (e *Engine) mapInitEmpty(st *State, h Term, t types.Type) {
+	e.mapLenSet(st, t, h, e.ar.idxLit(0))
 	mt := t.Underlying().(*types.Map)
 	ks, ok := e.mapSorts(mt)
 	if !ok {
@@ -531,6 +548,11 @@ func (e *Engine) mapHavoc(st *State, m Scalar) {
 	if !ok {
 		return
 	}
+	{
+		nl := e.fresh(e.ar.idxSort(), "maplen")
+		e.assume(e.ar.idxLe(e.ar.idxLit(0), nl))
+		e.mapLenSet(st, m.Ty, m.T, nl)
+	}
 	hk, vk := mapKeys(mt)
 	for k, t := range st.heap {
 		if k == hk || strings.HasPrefix(k, vk) {
@@ -543,6 +565,13 @@ func (e *Engine) mapUpdate(fr *Frame, st *State, x *ssa.MapUpdate) {
 	m := fr.get(e, x.Map).(Scalar)
 	mt := m.Ty.Underlying().(*types.Map)
 	e.oblige("mapwrite-nil", fmt.Sprintf("mapwrite-nil#%d", e.ordinal("mapwrite")), st.guard, Not(Eq(m.T, IntLit(0))), x.Pos())
+	{
+		// the ghost length may grow by one
+		old := Select(e.mapLenGet(st, m.Ty), m.T)
+		nl := e.fresh(e.ar.idxSort(), "maplen")
+		e.assume(Implies(st.guard, And(e.ar.idxLe(old, nl), e.ar.idxLe(nl, e.ar.idxAdd(old, e.ar.idxLit(1))), e.ar.idxLe(e.ar.idxLit(1), nl))))
+		e.mapLenSet(st, m.Ty, m.T, nl)
+	}
 	ks, ok := e.mapSorts(mt)
 	if !ok {
 		e.note("map with composite key: update modelled as havoc")
